@@ -720,7 +720,7 @@ func init() {
 		}
 		return []Case{cellCase(cellSpec{t: t, md: md, v: f["v"], u: f["u"] == "1", ext: strings.Join(ext, " "), rest: unhx(f["rest"])}, "replay", true)}
 	}
-	register(&Property{ID: "C10", Gen: genC10, Chunks: chunksC10, Extra: extraC10,
+	register(&Property{ID: "C10", Gen: genC10, Chunks: chunksC10, Extra: func(c *Collector, r *RNG, tier string) { extraC10(c, r, tier); retainedCells(c, r, tier, genC10) },
 		Replay: func(line string) []Case {
 			if strings.HasPrefix(line, "hist ") {
 				return replayHist(line)
@@ -728,11 +728,11 @@ func init() {
 			return replayCell(line)
 		},
 		Rule: "end to end (signedness reaches the decoder from the mapper's column): histories over integer-heavy tables of mixed signedness with partial before / after images through the real parseEvents, values with the top bit set, delivered text vs the Spec's; cell level: abstract values -> Spec writer bytes (Lean) -> real CellBytes/cellLength vs Lean model vs canonical text; 8/16-bit domains exhaustive x2 signedness, 24-bit exhaustive in thorough, 32/64-bit boundaries + random, all YEAR bytes, BIT 1..64, ENUM 1-2, SET 1..8, float classes + random bits (float texts checked to parse back to the same bits, exponent-free). Non-trivial: value != 0"})
-	register(&Property{ID: "C11", Gen: genC11, Replay: replayCell,
+	register(&Property{ID: "C11", Gen: genC11, Extra: func(c *Collector, r *RNG, tier string) { retainedCells(c, r, tier, genC11) }, Replay: replayCell,
 		Rule: "every valid (p,s), p in 1..65, s in 0..min(30,p) x {zero, all nines, single low digit, each 9-digit group first non-zero, random} x sign; non-trivial: value != 0"})
-	register(&Property{ID: "C12", Gen: genC12, Chunks: chunksC12, Extra: extraC12, Replay: replayCell,
+	register(&Property{ID: "C12", Gen: genC12, Chunks: chunksC12, Extra: func(c *Collector, r *RNG, tier string) { extraC12(c, r, tier); retainedCells(c, r, tier, genC12) }, Replay: replayCell,
 		Rule: "DATE lattice (every 37th point quick / every 3rd thorough, all points of the boundary years), old TIME both signs to 838h, old DATETIME, TIME2/DATETIME2/TIMESTAMP2 fsp 0..6 boundary+random, all 2^24 raw values of the 3-byte DATE and old TIME encodings impl-vs-model in thorough, TIMESTAMP under several process time zones (offset and civil text obtained from the time package directly); non-trivial: not the all-zero value"})
-	register(&Property{ID: "C13", Gen: genC13, Extra: extraC13,
+	register(&Property{ID: "C13", Gen: genC13, Extra: func(c *Collector, r *RNG, tier string) { extraC13(c, r, tier); retainedCells(c, r, tier, genC13) },
 		Replay: func(line string) []Case {
 			if strings.HasPrefix(line, "hist ") {
 				return replayHist(line)
